@@ -415,8 +415,15 @@ class Cache(Filter[Iterable[Any], Iterable[Any]]):
             return
 
         yield from self._cache
-        items = self._iter
-        while current := list(islice(self._iter,n_slice)):
+        while True:
+            try:
+                current = list(islice(self._iter,n_slice))
+            except:
+                #the source failed part-way: what was cached so far is not all of it, so the next read starts over
+                self._iter  = None
+                self._cache = None
+                raise
+            if not current: break
             self._cache.extend(current)
             yield from current
         self._iter = None
